@@ -15,7 +15,12 @@ Fixpoint segs_ok (l : list string) : bool :=
   | [s] => negb (is_dot_seg s)
   | s :: r => negb (is_dot_seg s) && negb (String.eqb s "") && segs_ok r
   end.
-Definition valid_object_name (name : string) : bool := segs_ok (split_char "/" name).
+(* the top-level name under which the storing backends keep their bookkeeping inside a bucket (backend.ReservedObjectNamespace):
+   skipped by listings, removed with the bucket, hence not part of the key space *)
+Definition reserved_ns : string := ".sgwtmp".
+Definition first_reserved (l : list string) : bool := match l with s :: _ => String.eqb s reserved_ns | [] => false end.
+Definition valid_object_name (name : string) : bool :=
+  let l := split_char "/" name in segs_ok l && negb (first_reserved l).
 
 Definition valid_opaque_id (id : string) : bool :=
   negb (is_dot_seg id) && negb (has_char "/" id) && negb (has_char (Ascii.ascii_of_nat 0) id).
